@@ -126,6 +126,7 @@ impl Monitors {
         let mut stops_this_step: BTreeSet<usize> = BTreeSet::new();
         let mut cancel_delivered: Vec<(Wid, Vec<Tid>)> = Vec::new();
         let mut srv_cancel_sent: BTreeSet<Tid> = BTreeSet::new();
+        let mut srv_cancel_sent_to: BTreeSet<(Wid, Tid)> = BTreeSet::new();
         let mut restarted_now = false;
 
         for (_, o) in new {
@@ -206,10 +207,11 @@ impl Monitors {
                 }
                 Obs::ExecEnd { .. } => {}
                 Obs::LaunchFail { .. } => self.count("launch_fail", 1),
-                Obs::SrvSent { w: _, m } => match m {
+                Obs::SrvSent { w: to_w, m } => match m {
                     ToWorkerLite::Cancel(ids) => {
                         for t in ids {
                             srv_cancel_sent.insert(*t);
+                            srv_cancel_sent_to.insert((*to_w, *t));
                         }
                     }
                     ToWorkerLite::Retract(ids) => self.count("retract.sent", ids.len() as u64),
@@ -464,6 +466,35 @@ impl Monitors {
                 step,
                 out,
             );
+            // K2: every worker that holds one of the canceled tasks (placed, running, in its
+            // backlog or being retracted from it) is told - otherwise an execution in progress is
+            // not stopped and a backlog task is started later
+            if let (Some(pc), Some(pj)) = (prev_core.as_ref(), job_of(&prev_jobs, *job)) {
+                for (id, st) in &pj.tasks {
+                    if st.is_terminal() {
+                        continue;
+                    }
+                    let t = (*job, *id);
+                    let Some(ts) = pc.tasks.iter().find(|x| conv::tid(x.id) == t) else { continue };
+                    let holder = match &ts.state {
+                        TaskStateSnapshot::Assigned { worker_id, .. }
+                        | TaskStateSnapshot::Running { worker_id, .. }
+                        | TaskStateSnapshot::Prefilled { worker_id }
+                        | TaskStateSnapshot::Retracting { worker_id } => Some(worker_id.as_num()),
+                        TaskStateSnapshot::RunningMultiNode(ws) => ws.first().map(|w| w.as_num()),
+                        _ => None,
+                    };
+                    let Some(w) = holder else { continue };
+                    // the holder must still be connected after the step (a lost worker cannot be told)
+                    if !core.workers.iter().any(|x| x.id.as_num() == w) {
+                        continue;
+                    }
+                    self.count("cancel.holder_checked", 1);
+                    if !srv_cancel_sent_to.contains(&(w, t)) {
+                        viol(out, step, "C08", "K2-worker-not-told", format!("task {t:?} was {} on worker {w} when its job was canceled, but no CancelTasks naming it was sent to that worker", state_name(&ts.state)));
+                    }
+                }
+            }
         }
 
         // ---- C14: max-fails
